@@ -234,6 +234,17 @@ func doReplay(c *Check, path string) int {
 		fmt.Fprintln(os.Stderr, "check has no replay function")
 		return 2
 	}
+	var died struct {
+		Job  string `json:"job"`
+		Died bool   `json:"died"`
+		Tier string `json:"tier"`
+	}
+	if json.Unmarshal(rf.Replay, &died) == nil && died.Died {
+		fmt.Printf("replay: running job %q in-process; the recorded violation is that the process dies\n", died.Job)
+		c.Run(died.Job, died.Tier, time.Now().Add(10*time.Minute))
+		fmt.Println("replay: job completed, process did not die")
+		return 0
+	}
 	v := c.Replay(rf.Replay)
 	if v == nil {
 		fmt.Println("replay: no violation")
@@ -293,7 +304,8 @@ func orchestrate(c *Check, tier string, nproc int) int {
 				}
 				pending := []string{job}
 				cmd := exec.Command(self, c.ID, "--worker", "--tier", tier, "--deadline", strconv.FormatInt(deadline.Unix(), 10))
-				cmd.Stderr = os.Stderr
+				tail := &tailWriter{max: 6000}
+				cmd.Stderr = tail
 				cmd.Env = append(os.Environ(), "GOMAXPROCS=1")
 				if os.Getenv("VERIF_GOMAXPROCS") != "" {
 					cmd.Env = append(os.Environ(), "GOMAXPROCS="+os.Getenv("VERIF_GOMAXPROCS"))
@@ -361,15 +373,25 @@ func orchestrate(c *Check, tier string, nproc int) int {
 				}
 				err := cmd.Wait()
 				if died {
-					msg := fmt.Sprintf("worker died on job %q: %v", current, err)
+					msg := fmt.Sprintf("worker process died while running job %q (%v); stderr tail:\n%s", current, err, tail.String())
+					// confirm in isolation: the job must kill a fresh process twice more
+					confirmed := 0
+					for i := 0; i < 2; i++ {
+						if out, dead := runJobIsolated(c, current, tier); dead {
+							confirmed++
+							msg = fmt.Sprintf("process running job %q dies (fatal error / unrecovered panic / deadlock of all goroutines); output tail:\n%s", current, out)
+						}
+					}
 					mu.Lock()
-					if c.Isolated {
-						rp, _ := json.Marshal(map[string]string{"job": current})
-						results = append(results, &Result{Job: current, Violations: []Violation{{Property: c.ID, Kind: "worker-died", Key: "worker-died:" + current, Detail: msg, Job: current, Replay: rp}}})
+					if confirmed == 2 {
+						rp, _ := json.Marshal(map[string]interface{}{"job": current, "died": true, "tier": tier})
+						results = append(results, &Result{Job: current, Violations: []Violation{{Property: c.ID, Kind: "worker-died", Key: "crash:" + crashKey(msg), Detail: msg, Job: current, Replay: rp}}})
 					} else {
-						harnessErrs = append(harnessErrs, msg)
+						harnessErrs = append(harnessErrs, fmt.Sprintf("(not reproducible in isolation %d/2) %s", confirmed, msg))
 					}
 					mu.Unlock()
+				} else if tail.Len() > 0 && os.Getenv("VERIF_VERBOSE") != "" {
+					fmt.Fprint(os.Stderr, tail.String())
 				}
 			}
 		}()
@@ -451,7 +473,9 @@ func finish(c *Check, tier string, start time.Time, jobs []string, results []*Re
 		// confirm by re-running
 		repro := 0
 		const tries = 5
-		if c.Replay != nil && v.Kind != "worker-died" {
+		if v.Kind == "worker-died" {
+			repro = tries // confirmed in isolation by the orchestrator
+		} else if c.Replay != nil {
 			for i := 0; i < tries; i++ {
 				if rv := safeReplay(c, v.Replay); rv != nil {
 					repro++
@@ -624,3 +648,65 @@ func mustJSON(v interface{}) json.RawMessage {
 
 // MustJSON marshals v (panics on error).
 func MustJSON(v interface{}) json.RawMessage { return mustJSON(v) }
+
+type tailWriter struct {
+	mu  sync.Mutex
+	buf []byte
+	max int
+}
+
+func (t *tailWriter) Write(p []byte) (int, error) {
+	t.mu.Lock()
+	t.buf = append(t.buf, p...)
+	if len(t.buf) > 2*t.max {
+		t.buf = append([]byte(nil), t.buf[len(t.buf)-t.max:]...)
+	}
+	t.mu.Unlock()
+	return len(p), nil
+}
+func (t *tailWriter) Len() int { t.mu.Lock(); defer t.mu.Unlock(); return len(t.buf) }
+func (t *tailWriter) String() string {
+	t.mu.Lock()
+	defer t.mu.Unlock()
+	b := t.buf
+	if len(b) > t.max {
+		b = b[len(b)-t.max:]
+	}
+	return string(b)
+}
+
+// runJobIsolated runs one job in a fresh process; dead=true if the process did not exit 0.
+func runJobIsolated(c *Check, job, tier string) (string, bool) {
+	self, _ := os.Executable()
+	cmd := exec.Command(self, c.ID, "--job", job, "--tier", tier)
+	cmd.Env = append(os.Environ(), "GOMAXPROCS=1")
+	tail := &tailWriter{max: 3000}
+	cmd.Stderr = tail
+	cmd.Stdout = nil
+	done := make(chan error, 1)
+	if err := cmd.Start(); err != nil {
+		return err.Error(), false
+	}
+	go func() { done <- cmd.Wait() }()
+	select {
+	case err := <-done:
+		return firstLines(tail.String(), 25), err != nil
+	case <-time.After(5 * time.Minute):
+		cmd.Process.Kill()
+		return "timed out after 5 minutes", true
+	}
+}
+
+// crashKey extracts a stable classifier from a crash message (first fatal/panic line).
+func crashKey(msg string) string {
+	for _, l := range strings.Split(msg, "\n") {
+		l = strings.TrimSpace(l)
+		if strings.HasPrefix(l, "fatal error:") || strings.HasPrefix(l, "panic:") {
+			if len(l) > 100 {
+				l = l[:100]
+			}
+			return l
+		}
+	}
+	return "unknown"
+}
